@@ -19,3 +19,17 @@ package smartclip
 //@   ensures (code / 2) % 2 == 1 ==> same(result[0], b.Max[0])
 //@   ensures (code / 4) % 2 == 1 ==> same(result[1], b.Min[1])
 //@   ensures (code / 8) % 2 == 1 ==> same(result[1], b.Max[1])
+
+// ---------------------------------------------------------------- hole assignment: point-in-ring by crossing parity
+// polygonContains answers true exactly when some vertex of r has odd crossing parity against the n
+// edges (j -> i, j the vertex before i, the last vertex before the first) of outer, a crossing being
+// the usual test: the edge spans the height y and x lies left of the edge's abscissa at that height,
+// xi + (xj-xi)*(y-yi)/(yj-yi) (computed in this order)
+//@ spec pcross(o orb.Ring, i int, j int, x float64, y float64) bool = ((o[i][1] > y) != (o[j][1] > y)) && (x < (o[j][0]-o[i][0])*(y-o[i][1])/(o[j][1]-o[i][1])+o[i][0])
+//@ spec ppar(o orb.Ring, x float64, y float64, n int) bool = ite(n <= 0, false, ppar(o, x, y, n-1) != pcross(o, n-1, ite(n == 1, len(o)-1, n-2), x, y))
+//@ func polygonContains(outer, r)
+//@   floats abstract
+//@   pure
+//@   ensures result == (exists k :: 0 <= k && k < len(r) && ppar(outer, r[k][0], r[k][1], len(outer)))
+//@   loop 1: invariant -1 <= rangeindex && rangeindex < len(r) && (forall k :: 0 <= k && k <= rangeindex ==> !ppar(outer, r[k][0], r[k][1], len(outer)))
+//@   loop 2: invariant 0 <= i && i <= len(outer) && j == ite(i == 0, len(outer)-1, i-1) && inside == ppar(outer, x, y, i) && 0 <= rangeindex && rangeindex < len(r) && same(x, r[rangeindex][0]) && same(y, r[rangeindex][1]) && (forall k :: 0 <= k && k < rangeindex ==> !ppar(outer, r[k][0], r[k][1], len(outer)))
